@@ -20,7 +20,7 @@ func main() {
 
 	small := func(c *vlib.Case) int { return c.Rng.Intn(5) }
 
-	r.Section("perm", r.N(2500, 40000), vlib.SectionOpts{}, func(c *vlib.Case) {
+	r.Section("perm", r.N(6000, 40000), vlib.SectionOpts{}, func(c *vlib.Case) {
 		n := sizeDist(c.Rng, 400)
 		if c.Rng.Intn(12) == 0 {
 			n = 0
@@ -31,7 +31,7 @@ func main() {
 		permCase(c, 2000+c.Rng.Intn(r.N(4000, 20000)))
 	})
 
-	r.Section("coll3d.small", r.N(2500, 40000), vlib.SectionOpts{}, func(c *vlib.Case) {
+	r.Section("coll3d.small", r.N(8000, 40000), vlib.SectionOpts{}, func(c *vlib.Case) {
 		n := small(c)
 		if n == 0 {
 			emptyColliderCase3(c)
@@ -39,21 +39,21 @@ func main() {
 		}
 		colliderCase3(c, n, 6)
 	})
-	r.Section("coll3d.medium", r.N(500, 8000), vlib.SectionOpts{}, func(c *vlib.Case) {
+	r.Section("coll3d.medium", r.N(1500, 8000), vlib.SectionOpts{}, func(c *vlib.Case) {
 		colliderCase3(c, sizeDist(c.Rng, 400), 8)
 	})
-	r.Section("coll3d.large", r.N(4, 48), vlib.SectionOpts{}, func(c *vlib.Case) {
+	r.Section("coll3d.large", r.N(8, 48), vlib.SectionOpts{}, func(c *vlib.Case) {
 		colliderCase3(c, 1500+c.Rng.Intn(r.N(2500, 20000)), 12)
 	})
 
-	r.Section("sdf3d", r.N(700, 12000), vlib.SectionOpts{}, func(c *vlib.Case) {
+	r.Section("sdf3d", r.N(2000, 12000), vlib.SectionOpts{}, func(c *vlib.Case) {
 		n := sizeDist(c.Rng, 400)
 		if c.Rng.Intn(3) == 0 {
 			n = 1 + small(c)
 		}
 		sdfCase3(c, n, 10)
 	})
-	r.Section("sdf3d.large", r.N(3, 32), vlib.SectionOpts{}, func(c *vlib.Case) {
+	r.Section("sdf3d.large", r.N(6, 32), vlib.SectionOpts{}, func(c *vlib.Case) {
 		sdfCase3(c, 1500+c.Rng.Intn(r.N(2500, 20000)), 25)
 	})
 
@@ -63,7 +63,7 @@ func main() {
 		if api.dim == 2 {
 			name = "tree2d"
 		}
-		r.Section(name, r.N(2500, 40000), vlib.SectionOpts{}, func(c *vlib.Case) {
+		r.Section(name, r.N(7000, 40000), vlib.SectionOpts{}, func(c *vlib.Case) {
 			n := sizeDist(c.Rng, 400)
 			switch c.Rng.Intn(12) {
 			case 0:
@@ -73,21 +73,21 @@ func main() {
 			}
 			treeCase(c, api, n, 6)
 		})
-		r.Section(name+".large", r.N(3, 32), vlib.SectionOpts{}, func(c *vlib.Case) {
+		r.Section(name+".large", r.N(6, 32), vlib.SectionOpts{}, func(c *vlib.Case) {
 			treeCase(c, api, 2000+c.Rng.Intn(r.N(4000, 20000)), 20)
 		})
 	}
 
-	r.Section("coll2d.small", r.N(2500, 40000), vlib.SectionOpts{}, func(c *vlib.Case) {
+	r.Section("coll2d.small", r.N(8000, 40000), vlib.SectionOpts{}, func(c *vlib.Case) {
 		colliderCase2(c, small(c), 6)
 	})
-	r.Section("coll2d.medium", r.N(600, 10000), vlib.SectionOpts{}, func(c *vlib.Case) {
+	r.Section("coll2d.medium", r.N(1800, 10000), vlib.SectionOpts{}, func(c *vlib.Case) {
 		colliderCase2(c, sizeDist(c.Rng, 400), 8)
 	})
-	r.Section("coll2d.large", r.N(4, 48), vlib.SectionOpts{}, func(c *vlib.Case) {
+	r.Section("coll2d.large", r.N(8, 48), vlib.SectionOpts{}, func(c *vlib.Case) {
 		colliderCase2(c, 1500+c.Rng.Intn(r.N(2500, 20000)), 12)
 	})
-	r.Section("sdf2d", r.N(900, 15000), vlib.SectionOpts{}, func(c *vlib.Case) {
+	r.Section("sdf2d", r.N(2500, 15000), vlib.SectionOpts{}, func(c *vlib.Case) {
 		n := sizeDist(c.Rng, 400)
 		if c.Rng.Intn(3) == 0 {
 			n = 1 + small(c)
@@ -95,7 +95,7 @@ func main() {
 		sdfCase2(c, n, 10)
 	})
 
-	r.Section("objects", r.N(1500, 25000), vlib.SectionOpts{}, func(c *vlib.Case) {
+	r.Section("objects", r.N(4500, 25000), vlib.SectionOpts{}, func(c *vlib.Case) {
 		n := sizeDist(c.Rng, 300)
 		if c.Rng.Intn(3) == 0 {
 			n = 1 + small(c)
@@ -105,43 +105,45 @@ func main() {
 
 	// every clause named in the property statement must have been observed
 	for name, min := range map[string]int64{
-		"coll3d.ray.RayCollisions.compared":     2000,
-		"coll3d.ray.FirstRayCollision.compared": 2000,
-		"coll3d.ray.brute_hits_robust":          1000,
-		"coll3d.ray.queries_with_2plus_hits":    200,
-		"coll3d.sphere.scan_true":               500,
-		"coll3d.sphere.scan_false":              500,
-		"coll3d.segment.scan_true":              300,
-		"coll3d.rect.scan_true":                 300,
-		"coll3d.triangle.queries_with_segments": 300,
-		"coll3d.scene.same-bounds":              20,
-		"coll3d.scene.grid-flat":                20,
-		"coll3d.scenes_single":                  20,
-		"coll3d.scenes_empty":                   20,
-		"sdf3d.compared":                        2000,
-		"tree3d.NearestNeighbor.compared":       2000,
-		"tree3d.KNN.compared":                   2000,
-		"tree3d.KNN.k_ge_n":                     500,
-		"tree3d.SphereCollision.scan_true":      500,
-		"tree3d.SphereCollision.scan_false":     500,
-		"tree3d.Contains.true":                  200,
-		"tree3d.Slice.compared":                 500,
-		"tree3d.clouds_empty":                   10,
-		"tree2d.NearestNeighbor.compared":       2000,
-		"tree2d.KNN.compared":                   2000,
-		"tree2d.SphereCollision.scan_true":      500,
-		"coll2d.ray.brute_hits":                 1000,
-		"coll2d.circle.scan_true":               300,
-		"coll2d.segment.scan_true":              300,
-		"coll2d.rect.scan_true":                 300,
-		"sdf2d.compared":                        2000,
-		"objects.cast.scan_hits":                1000,
-		"objects.cast.queries_with_2plus_hits":  200,
-		"perm.GroupTriangles":                   500,
-		"perm.GroupSegments":                    500,
-		"perm.model3d.GroupBounders":            500,
-		"perm.model3d.NewBVHAreaDensity":        500,
-		"perm.model2d.NewBVHAreaDensity":        500,
+		"coll3d.ray.RayCollisions.compared":            2000,
+		"coll3d.ray.FirstRayCollision.compared":        2000,
+		"coll3d.ray.brute_hits_robust":                 1000,
+		"coll3d.ray.queries_with_2plus_hits":           200,
+		"coll3d.sphere.scan_true":                      500,
+		"coll3d.sphere.scan_false":                     500,
+		"coll3d.segment.scan_true":                     300,
+		"coll3d.rect.scan_true":                        300,
+		"coll3d.triangle.queries_with_segments":        300,
+		"coll3d.scene.same-bounds":                     20,
+		"coll3d.scene.grid-flat":                       20,
+		"coll3d.scenes_single":                         20,
+		"coll3d.scenes_empty":                          20,
+		"coll3d.scenes_with_flattening":                50,
+		"coll3d.ctor.NewJoinedCollider(nested, n-ary)": 500,
+		"sdf3d.compared":                               2000,
+		"tree3d.NearestNeighbor.compared":              2000,
+		"tree3d.KNN.compared":                          2000,
+		"tree3d.KNN.k_ge_n":                            500,
+		"tree3d.SphereCollision.scan_true":             500,
+		"tree3d.SphereCollision.scan_false":            500,
+		"tree3d.Contains.true":                         200,
+		"tree3d.Slice.compared":                        500,
+		"tree3d.clouds_empty":                          10,
+		"tree2d.NearestNeighbor.compared":              2000,
+		"tree2d.KNN.compared":                          2000,
+		"tree2d.SphereCollision.scan_true":             500,
+		"coll2d.ray.brute_hits":                        1000,
+		"coll2d.circle.scan_true":                      300,
+		"coll2d.segment.scan_true":                     300,
+		"coll2d.rect.scan_true":                        300,
+		"sdf2d.compared":                               2000,
+		"objects.cast.scan_hits":                       1000,
+		"objects.cast.queries_with_2plus_hits":         200,
+		"perm.GroupTriangles":                          500,
+		"perm.GroupSegments":                           500,
+		"perm.model3d.GroupBounders":                   500,
+		"perm.model3d.NewBVHAreaDensity":               500,
+		"perm.model2d.NewBVHAreaDensity":               500,
 	} {
 		r.Require(name, min)
 	}
